@@ -36,6 +36,52 @@ easy_ebml! {
     }
 }
 
+// A second macro-derived specification, with global placeholders in trailing and intermediate position.
+easy_ebml! {
+    #[derive(Clone, Debug, PartialEq)]
+    pub enum W {
+        A                    : Master      = 0x91,
+        A/AU                 : UnsignedInt = 0xa1,
+        A/B                  : Master      = 0x4092,
+        A/B/BU               : UnsignedInt = 0xa2,
+        A/B/C                : Master      = 0x209393,
+        A/B/C/CU             : UnsignedInt = 0xa3,
+        A/(1-2)/K            : Master      = 0x94,
+        A/(1-2)/K/KU         : UnsignedInt = 0xa4,
+        A/(1-2)/K/(-1)/L     : Master      = 0x95,
+        A/(1-2)/K/(-1)/L/LU  : UnsignedInt = 0xa5,
+        (0-1)/G              : Master      = 0x96,
+        (0-1)/G/GU           : UnsignedInt = 0xa6,
+        (2-3)/H              : Binary      = 0xa7,
+    }
+}
+
+pub fn w_refspec() -> RefSpec {
+    use PP::{Glob, Id};
+    let g12 = Glob(Some(1), Some(2));
+    let gm1 = Glob(None, Some(1));
+    let g01 = Glob(Some(0), Some(1));
+    RefSpec {
+        elems: vec![
+            ed("A", 0x91, Ty::Master, &[]),
+            ed("AU", 0xa1, Ty::U, &[Id(0x91)]),
+            ed("B", 0x4092, Ty::Master, &[Id(0x91)]),
+            ed("BU", 0xa2, Ty::U, &[Id(0x91), Id(0x4092)]),
+            ed("C", 0x209393, Ty::Master, &[Id(0x91), Id(0x4092)]),
+            ed("CU", 0xa3, Ty::U, &[Id(0x91), Id(0x4092), Id(0x209393)]),
+            ed("K", 0x94, Ty::Master, &[Id(0x91), g12]),
+            ed("KU", 0xa4, Ty::U, &[Id(0x91), g12, Id(0x94)]),
+            ed("L", 0x95, Ty::Master, &[Id(0x91), g12, Id(0x94), gm1]),
+            ed("LU", 0xa5, Ty::U, &[Id(0x91), g12, Id(0x94), gm1, Id(0x95)]),
+            ed("G", 0x96, Ty::Master, &[g01]),
+            ed("GU", 0xa6, Ty::U, &[g01, Id(0x96)]),
+            ed("H", 0xa7, Ty::B, &[Glob(Some(2), Some(3))]),
+            ed("Crc32", ID_CRC, Ty::B, &[PP::Glob(Some(1), None)]),
+            ed("Void", ID_VOID, Ty::B, &[PP::Glob(None, None)]),
+        ],
+    }
+}
+
 pub const ID_EBML: u64 = 0x1a45dfa3;
 pub const ID_EU: u64 = 0x4286;
 pub const ID_ROOT: u64 = 0x81;
